@@ -324,6 +324,7 @@ Section ty_ind2.
   Hypothesis HList : forall t, P t -> P (TList t).
   Hypothesis HMap : forall k v, P k -> P v -> P (TMap k v).
   Hypothesis HStruct : forall fs, Forall P fs -> P (TStruct fs).
+  Hypothesis HNamed : forall m t, P t -> P (TNamed m t).
   Fixpoint ty_ind2 (t : ty) : P t :=
     match t with
     | TInt g a => HInt g a | TFlt b => HFlt b | TBool => HBool | TStr k => HStr k | TBin k => HBin k
@@ -337,6 +338,7 @@ Section ty_ind2.
                        | [] => Forall_nil P
                        | t' :: r => Forall_cons t' (ty_ind2 t') (go r)
                        end) fs)
+    | TNamed m t' => HNamed m t' (ty_ind2 t')
     end.
 End ty_ind2.
 
@@ -353,6 +355,11 @@ Ltac done_scalar := repeat split; try reflexivity; try (intros _; discriminate).
 
 Lemma slot_nonnull d t w : w <> WNull -> slot d dec t w = dec t w.
 Proof. destruct w; intro H; try reflexivity. contradiction. Qed.
+
+Lemma named_ok_not_ptr t : named_enc_ok t = true -> is_ptr t = false.
+Proof. destruct t; try discriminate; reflexivity. Qed.
+Lemma slot_named m t w : slot zero dec (TNamed m t) w = slot zero dec t w.
+Proof. destruct w; reflexivity. Qed.
 
 Lemma g2w_all t : g2w_ok t.
 Proof.
@@ -417,6 +424,11 @@ Proof.
     destruct R as (ws & E & D).
     exists (WStruct ws). cbn [enc dec trunc slot]. rewrite E. cbn [option_map dec]. rewrite D.
     repeat split; try reflexivity. intros _; discriminate.
+  - (* named *) intros Hty x Hv. cbn [ty_ok] in Hty. apply andb_true_iff in Hty as [Hn Hty].
+    cbn [val_ok] in Hv.
+    destruct (IHt Hty x Hv) as (w & E & D & S & NN). specialize (NN (named_ok_not_ptr _ Hn)).
+    exists w. rewrite slot_named. cbn [enc dec trunc]. rewrite Hn.
+    repeat split; try assumption. intros _. exact NN.
 Qed.
 
 (* ---- wire value -> Go value -> wire value ---------------------------------------- *)
@@ -494,6 +506,11 @@ Proof.
     destruct R as (xs & D & E).
     split; [|split]; [exists (GStruct xs) | exists (GStruct xs) | intros _; discriminate];
       cbn [enc dec slot]; rewrite D; cbn [option_map enc]; rewrite E; split; reflexivity.
+  - (* named *) intros Hty w Hw. cbn [ty_ok] in Hty. apply andb_true_iff in Hty as [Hn Hty].
+    cbn [wire_ok] in Hw.
+    destruct (IHt Hty w Hw) as ((x & D & E) & (x' & S & E') & NN). specialize (NN (named_ok_not_ptr _ Hn)).
+    split; [|split]; [exists x | exists x' | intros _; exact NN]; rewrite ?slot_named; cbn [enc dec]; rewrite Hn;
+      split; assumption.
 Qed.
 
 (* ---- the two round trips, as equations --------------------------------------------- *)
@@ -631,6 +648,33 @@ Qed.
 (* the schema is a function of the field type alone: two derivations agree *)
 Lemma schema_fun t1 t2 : t1 = t2 -> arrow_of t1 = arrow_of t2.
 Proof. now intros ->. Qed.
+
+(* ---- named types: the method set never reaches the wire ------------------------------- *)
+Lemma named_ignores_methods m m' t :
+  (forall x, enc (TNamed m t) x = enc (TNamed m' t) x)
+  /\ (forall w, dec (TNamed m t) w = dec (TNamed m' t) w)
+  /\ (forall x, trunc (TNamed m t) x = trunc (TNamed m' t) x)
+  /\ (forall x, val_ok (TNamed m t) x = val_ok (TNamed m' t) x)
+  /\ arrow_of (TNamed m t) = arrow_of (TNamed m' t)
+  /\ ty_ok (TNamed m t) = ty_ok (TNamed m' t).
+Proof. repeat split; reflexivity. Qed.
+
+Lemma named_as_underlying m t :
+  named_enc_ok t = true ->
+  (forall x, enc (TNamed m t) x = enc t x) /\ (forall w, dec (TNamed m t) w = dec t w)
+  /\ (forall x, trunc (TNamed m t) x = trunc t x) /\ arrow_of (TNamed m t) = arrow_of t.
+Proof. intro H. repeat split; try reflexivity. intro x. cbn [enc]. now rewrite H. Qed.
+
+(* what the serializer refuses today although the schema derivation and the
+   decoder accept it: a named integer / float / bool, a named []byte in a binary column *)
+Lemma named_kind_refused m :
+  (forall g a z, enc (TNamed m (TInt g a)) (GInt z) = None)
+  /\ (forall b, enc (TNamed m TBool) (GBool b) = None)
+  /\ (forall is64 b, enc (TNamed m (TFlt is64)) (GFlt b) = None)
+  /\ (forall np b, enc (TNamed m (TBin BBin)) (GBytes np b) = None)
+  /\ val_ok (TNamed m (TInt I32 I32)) (GInt 5) = true
+  /\ dec (TNamed m (TInt I32 I32)) (WInt 5) = Some (GInt 5).
+Proof. repeat split; reflexivity. Qed.
 
 (* ---- the two defects repaired by 6a47532 / 98f5cb3, with the old behaviour ----------- *)
 Definition map_null_ty := TMap (TStr SUtf8) (TPtr (TInt I64 I64)).
